@@ -1,5 +1,6 @@
 /-
-C01 (stage 1) — model of the code generator for Python 3.11 on the straight-line scalar fragment, a model of
+C01 (stages 1–2) — model of the code generator for Python 3.11 on the scalar fragment with conditionals and counting
+loops, a model of
 the CPython 3.11 evaluation loop for exactly the instructions that fragment compiles to, the wrapper-aware
 source semantics, and the plain "Python-semantics reading" of the source.
 
@@ -17,8 +18,11 @@ Constant/name *indices* are resolved (an instruction carries the constant or the
 decoded to the same form by the harness, which refuses (`out-of-model`) code containing an index ≥ 256.
 Sizes are in bytes, jump arguments in code units, exactly as in the 3.11 byte stream.
 
-Not modelled here (tied behaviourally by the second stream of the check): the import prelude, floats, lists, control
-flow other than `and`/`or` and the `if` expression with both branches, user subroutines, other target versions.
+`emit_for_instr` + `emit_control_block` for `for! lo..<hi, i => chunks` (`GET_ITER`, `EXTENDED_ARG; FOR_ITER`, `STORE_NAME i`,
+  body chunks each popped, `EXTENDED_ARG; JUMP_BACKWARD`, `LOAD_CONST None`) with `RightOpenRange`/`RangeIterator` of
+  `_erg_range.py` as machine values (section "Programs with `for!` loops" at the end of this file).
+Not modelled here (tied behaviourally by the second stream of the check): the import prelude, floats, lists, `while!`,
+nested loops, the one-branch `if`, `if!` statements, user subroutines, other target versions.
 Import-free: the driver links as a `lean_exe`.
 -/
 namespace ErgVerif.C01
